@@ -40,18 +40,34 @@ def async_scenarios(wd, quick, seed):
     return out
 
 
-def run_async(vh, wd, scenarios, seed, name, reps):
-    sp = os.path.join(wd, name + ".scenarios.ndjson")
-    vf.write_ndjson(sp, scenarios)
+def run_async(vh, wd, scenarios, seed, name, reps, burst=1, hang_ms=5000):
+    """Runs vh c15async; a reported hang (rc 3) ends that process: the run continues after the hung scenario."""
     tp = os.path.join(wd, name + ".trace.ndjson")
+    remaining, first_t, restarts, races, stderr = list(scenarios), 1, 0, 0, ""
     with open(tp, "w") as out:
-        p = subprocess.run([vh, "c15async", "--seed", str(seed), "--scenarios", sp, "--reps", str(reps)], stdout=out,
-                           stderr=subprocess.PIPE, text=True, timeout=3000,
-                           env=dict(os.environ, GORACE="halt_on_error=0 exitcode=0"))
-    if p.returncode not in (0, 3):
-        raise vf.Infra(f"vh c15async failed rc={p.returncode}: {p.stderr[-2000:]}")
-    races = p.stderr.count("WARNING: DATA RACE")
-    return tp, races, p.stderr
+        while remaining:
+            sp = os.path.join(wd, f"{name}.{restarts}.scenarios.ndjson")
+            vf.write_ndjson(sp, remaining)
+            p = subprocess.run([vh, "c15async", "--seed", str(seed), "--scenarios", sp, "--reps", str(reps), "--burst", str(burst),
+                                "--hang-ms", str(hang_ms), "--first-trace", str(first_t)], capture_output=True, text=True, timeout=3000,
+                               env=dict(os.environ, GORACE="halt_on_error=0 exitcode=0"))
+            lines = [ln for ln in p.stdout.split("\n") if ln.endswith("}")]
+            for ln in lines:
+                out.write(ln + "\n")
+            races += p.stderr.count("WARNING: DATA RACE")
+            stderr += p.stderr[-20000:]
+            if p.returncode == 0:
+                break
+            if p.returncode != 3 or not lines:
+                raise vf.Infra(f"vh c15async failed rc={p.returncode}: {p.stderr[-2000:]}")
+            restarts += 1
+            if restarts > 40:
+                break
+            sc = [json.loads(ln) for ln in lines if '"ev":"Init"' in ln][-1]["sc"]
+            idx = [i for i, s in enumerate(remaining) if s["id"] == sc][0]
+            remaining = remaining[idx + 1:]
+            first_t = json.loads(lines[-1])["t"] + 1
+    return tp, races, stderr
 
 
 def validate_async(wd, tp, np):
@@ -197,6 +213,7 @@ def run(tier, seed):
     t0 = time.time()
     quick = tier != "thorough"
     vh = vf.build_vh(race=True)
+    vh_plain = vf.build_vh()
     wd = vf.scratch()
     xs = model_part(wd, quick)
     out = vf.Verdict(PROP)
@@ -204,7 +221,7 @@ def run(tier, seed):
     # ---- async protocol
     ascs = async_scenarios(wd, quick, seed)
     reps = 2 if quick else 6
-    tp, races, stderr = run_async(vh, wd, ascs, seed, "async", reps)
+    tp, races, stderr = run_async(vh, wd, ascs, seed, "async", reps, burst=10 if quick else 40)
     by_id = {s["id"]: s for s in ascs}
     inits = {e["t"]: e for e in vf.read_ndjson(tp) if e["ev"] == "Init"}
     consumed = traces = tstates = 0
@@ -228,10 +245,17 @@ def run(tier, seed):
         ini = inits[t]
         s = dict(by_id[ini["sc"]], mode=ini["mode"], usrc=ini["usrc"], procs=ini["procs"])
         s["orig"] = s["id"]
-        tp2, _, _ = run_async(vh, wd, [s], seed, f"confirm{t}", 30)
+        # schedule-dependent symptoms need many runs: the plain build is ten times faster than the race build
+        tp2, _, _ = run_async(vh_plain, wd, [dict(s, id=1)], seed, f"confirm{t}", 30, hang_ms=3000)
         c2, n2, rej2, _ = validate_async(wd, tp2, s["np"])
         if not rej2:
-            vf.log(f"[C15] rejected trace not reproduced in 30 runs: scenario {ini['sc']} at {json.dumps(bad)[:200]}")
+            for mode in ("free", "steered"):
+                tp2, _, _ = run_async(vh_plain, wd, [dict(s, id=1, mode=mode, procs=4)], seed, f"confirm{t}{mode}", 4000, hang_ms=3000)
+                c2, n2, rej2, _ = validate_async(wd, tp2, s["np"])
+                if rej2:
+                    break
+        if not rej2:
+            vf.log(f"[C15] rejected trace not reproduced in 8000 runs: scenario {ini['sc']} at {json.dumps(bad)[:200]}")
             continue
         confirmed += 1
         cls = "async-hang" if rej2[0][1]["ev"] == "Hang" else "async-reject"
@@ -312,8 +336,13 @@ def replay(path, seed):
     vf.spec_dir(wd)
     if rp.get("part") == "async" and "scenario" in rp:
         s = rp["scenario"]
-        tp, races, _ = run_async(vh, wd, [s], rp.get("seed", seed), "replay", 30)
-        c, n, rej, _ = validate_async(wd, tp, s["np"])
+        vh_plain = vf.build_vh()
+        rej = []
+        for mode in ("free", "steered"):
+            tp, races, _ = run_async(vh_plain, wd, [dict(s, mode=mode, procs=4)], rp.get("seed", seed), "replay" + mode, 4000, hang_ms=3000)
+            c, n, rej, _ = validate_async(wd, tp, s["np"])
+            if rej:
+                break
         if rej:
             print(f"VIOLATION property={PROP} replay={path} class={rp['class']} first unexplained event {json.dumps(rej[0][1])[:300]}")
             return 1
